@@ -4,7 +4,7 @@
 //! fields with the independent writer `vpc::refwire` (never with sciparse):
 //!   source type/length nibble (all 16) x destination nibble x path variant (types 0,1,2,3,4,5,255, with
 //!   right and wrong sizes) x tunnel peer address x source host byte pattern (equal to the peer,
-//!   differing in each single byte, v4-mapped / v4-compatible / NAT64 / zero-padded / truncated forms;
+//!   differing in one bit (low / high) of each single byte, v4-mapped / v4-compatible / NAT64 / zero-padded / truncated forms;
 //!   the type/length aliasing cases arise because every pattern is sent under every nibble of its
 //!   length) x header deviation (truthful HdrLen, -1, +1, 0, 255, version 1) x payload (size and
 //!   PayloadLen field) x truncation at every structural boundary and +-1.
@@ -53,9 +53,11 @@ fn src_patterns(peer: &IpAddr, l: usize) -> Vec<(String, Vec<u8>)> {
     if nat.len() == l {
         v.push(("equal-to-peer".into(), nat.clone()));
         for i in 0..l {
-            let mut b = nat.clone();
-            b[i] ^= 0x01;
-            v.push((format!("differs-in-byte-{i}"), b));
+            for (bit, name) in [(0x01u8, "low"), (0x80, "high")] {
+                let mut b = nat.clone();
+                b[i] ^= bit;
+                v.push((format!("differs-in-byte-{i}-{name}-bit"), b));
+            }
         }
     } else if nat.len() < l {
         let mut a = nat.clone();
@@ -430,7 +432,7 @@ pub fn run(args: &vpc::Args) -> ! {
 
     let evaluations = evaluations.into_inner();
     let bound = format!(
-        "complete product: 16 source type/length nibbles x {} destination nibbles x {} path variants (types 0,1,2,3,4,5,255; right and wrong sizes) x {} peers x all source-host patterns of the nibble's length (equal, one-byte differences at every position, mapped/compatible/NAT64/padded/truncated forms, zeros, ones) x 6 header modes (truthful, HdrLen -1/+1/0/255, version 1) x {} payload variants (up to the 9216-byte jumbo buffer) x {}",
+        "complete product: 16 source type/length nibbles x {} destination nibbles x {} path variants (types 0,1,2,3,4,5,255; right and wrong sizes) x {} peers x all source-host patterns of the nibble's length (equal, one-bit differences in every byte position, mapped/compatible/NAT64/padded/truncated forms, zeros, ones) x 6 header modes (truthful, HdrLen -1/+1/0/255, version 1) x {} payload variants (up to the 9216-byte jumbo buffer) x {}",
         dst_nibbles.len(),
         paths.len(),
         peers.len(),
